@@ -171,6 +171,13 @@ def streams(rng, tier):
         trees.append(("f16", h))
     for n in W.SIMPLE_VALID:
         trees.append(("simple", n))
+    # single- and double-precision items of every class, NaNs with every kind of payload (quiet, signalling, payload in the low bits only): a
+    # float token carries the item's bits, re-encoding gives them back
+    for b in (0x7fa00000, 0xffa00001, 0x7f800001, 0x7fc00000, 0x7fc00001, 0xffffffff, 0x7f801fff, 0x00000001, 0x80000000, 0x7f800000, 0xff800000, 0x3f800001, 0x7f7fffff):
+        trees.append(("f32", b))
+    for b in (0x7ff4000000000000, 0xfff0000000000001, 0x7ff8000000000000, 0x7ff8000000000001, 0xffffffffffffffff, 0x7ff0000020000000, 0x7ff0000000000000,
+              0x8000000000000000, 0x0000000000000001, 0x3ff0000000000001, 0x36a0000000000000):
+        trees.append(("f64", b))
     # sequences of items
     seqs = [[t] for t in trees]
     for _ in range(300 if q else 5000):
